@@ -131,7 +131,7 @@ PROPS = {
         "proved": ["C16_roundtrip", "C16_devmode", "C16_norecompile", "C16_haschanged_pinned (T1)", "C16_textfile_current", "C16_textfile_current_joined",
                    "C16_textguard_pinned (T1)", "C16_watch_fresh", "C16_watch_inv", "C16_watch_pinned (T1)", "C16_window_rebuild", "C16_window_pinned (T1)",
                    "C16_transcription_pinned (T1: control structure and calls of eventhandler.go:FSEventHandler.UpsertHash, watchmode.go:WriteString, watchmode.go:cacheStrings, watchmode.go:getWatchedStrings)"],
-        "monitored": ["model = real strconv.Quote / Unquote", "real literals survive the text file", "dev-mode render = normal render (child process)",
+        "monitored": ["the development text file name reached through a symbolic link = the name through the real path", "a program rendered every 20 ms still shows a rewrite of its text file within 700 ms", "edit sessions whose last version arrives with an older modification time", "model = real strconv.Quote / Unquote", "real literals survive the text file", "dev-mode render = normal render (child process)",
                       "HasChanged false => generated code equal outside literals (also with the real handler's verdict per edit)",
                       "text file on disk after an edit session = text file of the last version (real FSEventHandler)",
                       "a long-running development-mode process shows every rewrite of its text file once the throttle interval has passed"],
@@ -228,7 +228,7 @@ PROPS = {
         "proved": ["C10_prefix", "C10_nil_full", "C10_fault_reported", "C10_step_error", "C10_ctx", "C10_pool",
                    "whole templates (Denote, every tree and environment): a failing render has written a prefix of the document and evaluated a prefix of the expressions of the render without failures (C10_template_prefix); no error reported => the complete document (C10_template_nil_full); nothing is written, evaluated or emitted after a failure (C10_template_frozen)",
                    "C10_transcription_pinned (T1: control structure and calls of buffer.go:Buffer.Flush, buffer.go:Buffer.Write, buffer.go:Buffer.WriteString)"],
-        "monitored": ["a component that fails by itself (also inside a Flush block) reports an error and has written a proper prefix of its non-failing variant", "the concurrent phase shared with C14 (race-built child: overlapping renders incl. CSS components and failed handler requests, every result = the render alone)", "bufio model = real runtime.Buffer (bytes received, per-operation errors)", "prefix / nil-full / fault-reported / error-line / after-failure predicates on real renders"],
+        "monitored": ["a writer that silently stops accepting bytes (no error): the render ends, and returns nil only if the writer got the whole document (Buffer.Write, Buffer.WriteString, generated template; sizes 100-9000, limits 0 / 10 / 4096)", "a component that fails by itself (also inside a Flush block) reports an error and has written a proper prefix of its non-failing variant", "the concurrent phase shared with C14 (race-built child: overlapping renders incl. CSS components and failed handler requests, every result = the render alone)", "bufio model = real runtime.Buffer (bytes received, per-operation errors)", "prefix / nil-full / fault-reported / error-line / after-failure predicates on real renders"],
         "partial": [],
         "trusted_base": ["bufio.Writer, sync.Pool"],
         "assumptions": STD_ASSUME + ["the writer honours the io.Writer contract (a short write returns an error)"],
@@ -416,7 +416,7 @@ PROPS = {
         "proved": ["C18_frame_roundtrip", "C18_roundtrip", "C18_length_counts_bytes", "C18_total", "C18_match", "C18_ids", "C18_no_block", "C18_no_block_any",
                    "C18_frames_atomic", "C18_concurrent_roundtrip", "C18_write_pinned (T1)",
                    "C18_transcription_pinned (T1: control structure and calls of conn.go:conn.Call, conn.go:conn.Notify, conn.go:conn.replier, conn.go:conn.run, conn.go:conn.write, stream.go:stream.Read, stream.go:stream.Write)"],
-        "monitored": ["model framing = real stream.Write bytes", "model reader = real stream.Read (frames and error kinds)", "real NewConn outcomes replay on the Rpc model",
+        "monitored": ["a frame with anything but white space after the message yields an error; white space is accepted", "model framing = real stream.Write bytes", "model reader = real stream.Read (frames and error kinds)", "real NewConn outcomes replay on the Rpc model",
                       "a connection used in both roles at once writes whole frames only (mux)", "no call stays stuck beyond its own deadline"],
         "partial": ["JSON layer; real scheduling"],
         "trusted_base": ["bufio.Reader", "encoding/json", "net.Pipe"],
@@ -443,7 +443,7 @@ PROPS = {
         "exhaustive": True,
         "proved": ["C19_safe", "C19_delivery", "C19_no_leak", "C19_wiring_pinned (T1)", "C19_unrepaired_counterexample",
                    "C19_transcription_pinned (T1: control structure and calls of server.go:Handler.Send, server.go:Handler.ServeHTTP)"],
-        "monitored": ["model = real sse.Handler under hook-forced schedules: panic, stuck goroutines, per-client logs"],
+        "monitored": ["the event stream through proxy.Handler behind a real HTTP server, logger at info and debug level: headers and every event within 2 s", "72 resident clients in the stress child, run under a time-out (a wedged broadcaster is a violation, not a hung check)", "model = real sse.Handler under hook-forced schedules: panic, stuck goroutines, per-client logs"],
         "partial": ["real scheduling / memory model; fairness"],
         "trusted_base": ["Go channel and mutex semantics as modelled", "verif hooks in sse/server.go (yield points only)"],
         "assumptions": STD_ASSUME,
@@ -639,7 +639,7 @@ PROPS = {
                    "C17_main: Document.Apply = byte splice for every document, ordered range (after clamping) and text",
                    "C17_nil: nil range = full replace", "C17_hist: any change sequence keeps the copy equal to the editor's buffer",
                    "C17_transcription_pinned (T1: control structure and calls of documentcontents.go:Document.Apply, documentcontents.go:DocumentContents.Apply, documentcontents.go:DocumentContents.Delete, documentcontents.go:DocumentContents.Get, documentcontents.go:DocumentContents.Set)"],
-        "monitored": ["model = real Document.Apply on every explored case", "real output = splice specification"],
+        "monitored": ["watched-file notifications (Changed / Created) for open documents with unsaved edits leave the buffer of the editor the truth", "model = real Document.Apply on every explored case", "real output = splice specification"],
         "partial": ["offsets are byte offsets as in the code (LSP UTF-16 units coincide for ASCII)"],
         "trusted_base": ["strings.Split / strings.Join modelled as splitLF / joinLF"],
         "assumptions": STD_ASSUME + ["LSP clients send start <= end (reversed ranges are outside the statement; counted as skipped)"],
